@@ -20,7 +20,8 @@ HARNESS = os.path.join(ROOT, "harness")
 WORK = os.path.join(ROOT, "work")
 EVID = os.path.join(ROOT, "evidence")
 REPLAY = os.path.join(ROOT, "replay")
-VH = os.path.join(HARNESS, "target", "debug", "vh")
+# VERIF_VH: an alternative harness binary (bin/coverage-audit uses an instrumented build)
+VH = os.environ.get("VERIF_VH") or os.path.join(HARNESS, "target", "debug", "vh")
 TLAJAR = "/opt/veriftools/tla/tla2tools.jar:/opt/veriftools/tla/CommunityModules-deps.jar"
 
 
